@@ -109,6 +109,23 @@ var structuredLeaves = []leafSpec{
 	{"map[string]Timeout", 1, "named-elem", "", "", ""},
 	{"[]time.Duration", 1, "predeclared", "", "", ""},
 	{"map[string]time.Duration", 1, "predeclared", "", "", ""},
+	// containers whose elements are pointers: valid input may hold nil elements
+	{"[]*time.Duration", 3, "ptr-elem", "", "", ""},
+	{"map[string]*time.Duration", 3, "ptr-elem", "", "", ""},
+	{"[2]*time.Duration", 2, "ptr-elem", "", "", ""},
+	{"*[]time.Duration", 2, "ptr-collection", "", "", ""},
+	{"*[]*time.Duration", 1, "ptr-elem", "", "", ""},
+	{"**time.Duration", 1, "double-pointer", "", "", ""},
+	{"map[string][]*time.Duration", 1, "ptr-elem", "", "", ""},
+	{"[]*int", 2, "ptr-elem", "", "", ""},
+	{"map[string]*string", 2, "ptr-elem", "", "", ""},
+	{"[]*Level", 2, "ptr-elem", "", "", ""},
+	{"map[string]*Name", 1, "ptr-elem", "", "", ""},
+	{"map[string]*Timeout", 1, "ptr-elem", "", "", ""},
+	{"[]*Stamp", 1, "ptr-elem", "", "", ""},
+	{"[]DurRec", 2, "struct-elem", "", "", ""},
+	{"map[string]DurRec", 1, "struct-elem", "", "", ""},
+	{"[]*DurRec", 1, "ptr-elem", "", "", ""},
 }
 
 var leafClassOf = func() map[string]string {
